@@ -193,8 +193,8 @@ PROPS["C06"] = {
 }
 PROPS["C07"] = {
     "translators": ["consts", "tower"],
-    "lean_targets": prop_modules("C07", extra=("JediVerif.Properties.C07b",)),
-    "theorems": lambda: thms("C07", extra=(("JediVerif.Properties.C07b", "Jedi.C07"),)),
+    "lean_targets": prop_modules("C07", extra=("JediVerif.Properties.C07b", "JediVerif.Properties.C07c")),
+    "theorems": lambda: thms("C07", extra=(("JediVerif.Properties.C07b", "Jedi.C07"), ("JediVerif.Properties.C07c", "Jedi.C07"))),
     "streams": stream_set([("gt", 8)], ["asm", "portable32"], ALLCFG),
 }
 PROPS["C01"] = {
